@@ -387,6 +387,7 @@ func runC20(c *Ctx) {
 
 	ruleGoCapture(c)
 	ruleGoFreshCaptures(c)
+	ruleStatusShape(c)
 	ruleNoSharedMutableGlobals(c)
 	rulePanicUnderLock(c)
 	ruleCallbackReentrancy(c)
